@@ -12,6 +12,7 @@ Not proved (kept visible as `def … : Prop`): `reference_matcher_exact` — tha
 reference matcher of the oracle (`Spec.matchesFrom`) enumerates exactly `Spec.ValidMatch`.
 -/
 import SsqlVerif.Proofs.CepCompleteRun
+import SsqlVerif.Proofs.CepLower
 import SsqlVerif.Generated.Facts
 set_option autoImplicit false
 
@@ -36,6 +37,20 @@ theorem compileNode_correct (n : PNode) (a : NFA) (h : compileNode n = .ok a) :
   unfold compileNode at h
   obtain ⟨p, hp, rfl⟩ := except_map_ok h
   exact ⟨p, hp, lower_valid n p hp, rfl, compile_accepts_iff p (lower_valid n p hp)⟩
+
+/-- The same for the tree the parser builds, read the way the user wrote it (`Spec.LangN`: n-ary
+sequence and alternation, groups, quantifiers with their bounds, PERMUTE = the operands in any
+order of their positions): whenever `Compile` accepts the tree, the automaton accepts exactly that
+language. -/
+theorem pattern_tree_lang (n : PNode) (a : NFA) (h : compileNode n = .ok a) (w : List Sym) :
+    Accepts a w ↔ LangN n w := by
+  obtain ⟨p, hp, hv, rfl, hacc⟩ := compileNode_correct n a h
+  rw [hacc w]
+  exact lower_lang n p hp w
+
+/-- PERMUTE(A, B) accepts `B A` -/
+example : LangN (.permute [.lit 0, .lit 1]) [1, 0] :=
+  ⟨[1, 0], List.Perm.swap 0 1 [], [1], [0], rfl, rfl, [0], [], rfl, rfl, rfl⟩
 
 example : Accepts (compile (.seq (.lit 0) (.rep (.lit 1) 1 none))) [0, 1, 1] :=
   (nfa_accepts_iff_lang _ (by simp [Pat.valid]) _).2
